@@ -25,7 +25,9 @@ from hsim.worlds.client import ClientArrival, ClientWorld
 
 PROPERTY = "C19"
 CHUNK = {"quick": 40, "thorough": 100}
-PROBES = ["reliable_duplicate_delivered", "unreliable_duplicate_delivered", "ack_appended_completes",
+WINDOW = 1000    # see ASSUMPTIONS
+PROBES = ["duplicate_beyond_window_unjudged", "window_filled", "retransmission_on_circuit_with_full_window", "retransmission_beyond_window_not_sent",
+          "reliable_duplicate_delivered", "unreliable_duplicate_delivered", "ack_appended_completes",
           "ack_packetack_completes", "ack_before_send_ignored", "bogus_ack_ignored", "budget_exhausted",
           "resend_emitted", "ack_after_resend", "ping_reliable_duplicate", "retransmission_with_resent_flag",
           "duplicate_ack"]
@@ -62,7 +64,15 @@ def gen_plan(rng: random.Random, tier: str) -> dict:
     steps = []
     t = 0.01
     k = 0
-    for _ in range(n):
+    # a few runs are long-lived circuits: a burst of reliable traffic fills (or nearly fills) the receive-side
+    # duplicate window before/while the interesting traffic flows
+    flood_at = rng.randrange(0, max(1, n // 2)) if rng.random() < (0.12 if big else 0.04) else None
+    flooded = False
+    for i_ in range(n):
+        if i_ == flood_at:
+            steps.append({"at": t, "op": "flood", "n": rng.choice([900, 995, 999, 1000, 1001, 1040, 1500])})
+            flooded = True
+            t = round(t + 0.05, 4)
         t = round(t + rng.choice([0.0, 0.0, 0.01, 0.05, 0.25, 0.5, resend_every]), 4)
         x = rng.random()
         fate = rand_fate(rng, cfg["p_delay"], cfg["p_dup"], cfg["p_drop"])
@@ -77,7 +87,10 @@ def gen_plan(rng: random.Random, tier: str) -> dict:
                 st["bogus_ack"] = rng.choice([0, 1, 2, 5, 40])
             steps.append(st)
         elif x < 0.6:
-            steps.append({"at": t, "op": "sresend", "which": rng.randrange(50), "fate": fate})
+            st = {"at": t, "op": "sresend", "which": rng.randrange(50), "fate": fate}
+            if flooded and rng.random() < 0.7:
+                st["recent"] = rng.choice([1, 1, 2, 2, 3, 5])     # counted back from the newest packet
+            steps.append(st)
         elif x < 0.75:
             st = {"at": t, "op": "sack", "n": rng.randint(1, 3), "reack": rng.random() < 0.2, "fate": fate}
             if rng.random() < 0.15:
@@ -91,6 +104,10 @@ def gen_plan(rng: random.Random, tier: str) -> dict:
 
 
 def simplify_step(step):
+    if step["op"] == "flood":
+        for n_ in (0, 1000, step["n"] - 1):
+            if 0 <= n_ < step["n"]:
+                yield {**step, "n": n_}
     if step.get("fate"):
         yield {**step, "fate": {}}
     for k in ("acks", "bogus_ack", "zerocoded", "reack"):
@@ -163,6 +180,11 @@ def run_plan(plan: dict) -> RunResult:
         first_delivery_handled: Dict[int, bool] = {}
         tag_info: Dict[int, dict] = {}               # tag -> {pid, reliable, name}
         sent_by_sim: List[dict] = []
+        by_pid: Dict[int, dict] = {}
+        rel_sent = [0]                               # reliable packets the simulator has sent so far
+        rel_rx = [0]                                 # distinct reliable packets the client has received so far
+        rel_rx_seen = set()
+        unjudged_pings = set()
         client_sends: Dict[int, dict] = {}           # client pid -> {future, reliable, transmissions, body}
         last_first_pid = [-1]
         expected_calls: Dict[Tuple[str, int], int] = {}
@@ -226,8 +248,26 @@ def run_plan(plan: dict) -> RunResult:
                     return violate("C19/ack/missing", pid=p.pid, resent=bool(p.flags & L.RESENT),
                                    emissions=len(a.emissions))
             # (2) dispatch bookkeeping
-            info = next((s for s in sent_by_sim if s["pid"] == p.pid), None)
-            if info is not None and info.get("tag") is not None:
+            info = by_pid.get(p.pid)
+            if info is None:
+                info = by_pid[p.pid] = next((s for s in sent_by_sim if s["pid"] == p.pid), None) or {}
+            if p.flags & L.RELIABLE and p.pid not in rel_rx_seen:
+                rel_rx_seen.add(p.pid)
+                rel_rx[0] += 1
+                if info:
+                    info["rx_seq"] = rel_rx[0]
+            if info.get("tag") is not None and info["reliable"] and deliveries.get(info["tag"], 0) >= 1 \
+                    and rel_rx[0] - info.get("rx_seq", rel_rx[0]) >= WINDOW - 1:
+                # outside the stated assumption (the network held a duplicate back across a whole window of newer
+                # reliable packets): either outcome is accepted for this tag from here on
+                res.probe("duplicate_beyond_window_unjudged")
+                tag = info["tag"]
+                ctag = tag if info["name"] == "chat" else 1000 + (tag & 0xFF)
+                for sname in subs:
+                    expected_calls[(sname, ctag)] = calls.get((sname, ctag), 0)
+                if info["name"] == "ping":
+                    unjudged_pings.add(tag & 0xFF)
+            elif info.get("tag") is not None:
                 tag = info["tag"]
                 n_prev = deliveries.get(tag, 0)
                 deliveries[tag] = n_prev + 1
@@ -295,14 +335,32 @@ def run_plan(plan: dict) -> RunResult:
             flags = (L.RELIABLE if st.get("reliable") else 0) | (L.ZEROCODED if st.get("zerocoded") else 0)
             pid = sim.alloc_pid()
             dg = L.build_datagram(flags, pid, 0, body, acks)
+            if st.get("reliable"):
+                rel_sent[0] += 1
             sent_by_sim.append({"pid": pid, "tag": tag, "reliable": bool(st.get("reliable")), "name": st["name"],
+                                "rel_seq": rel_sent[0],
                                 "resend": L.build_datagram(flags | L.RESENT, pid, 0, body, ())})
             sim.send(dg, Fate.from_json(st.get("fate")))
 
+        def op_flood(st):
+            # untagged reliable packets, back to back; only "always ack" is judged on them
+            res.probe("window_filled" if st["n"] + rel_sent[0] >= WINDOW else "burst_below_window")
+            for _ in range(st["n"]):
+                pid = sim.alloc_pid()
+                rel_sent[0] += 1
+                sim.send(L.build_datagram(L.RELIABLE, pid, 0, b"\x01\x00" + struct.pack("<I", 0)), Fate())
+
         def op_sresend(st):
-            if not sent_by_sim:
+            tagged = [s_ for s_ in sent_by_sim if s_.get("tag") is not None] if st.get("recent") else sent_by_sim
+            if not tagged:
                 return
-            info = sent_by_sim[st["which"] % len(sent_by_sim)]
+            info = tagged[-min(st["recent"], len(tagged))] if st.get("recent") else tagged[st["which"] % len(tagged)]
+            if info["reliable"] and rel_sent[0] - info["rel_seq"] >= WINDOW - 1:
+                # outside the stated assumption: that many newer reliable packets may push it out of any window
+                res.probe("retransmission_beyond_window_not_sent")
+                return
+            if rel_sent[0] >= WINDOW and info["reliable"]:
+                res.probe("retransmission_on_circuit_with_full_window")
             res.fault("sim_retransmit")
             res.probe("retransmission_with_resent_flag")
             sim.send(info["resend"], Fate.from_json(st.get("fate")))
@@ -314,7 +372,8 @@ def run_plan(plan: dict) -> RunResult:
             if not ids:
                 return
             pid = sim.alloc_pid()
-            sent_by_sim.append({"pid": pid, "tag": None, "reliable": False, "name": "ack", "resend": b""})
+            sent_by_sim.append({"pid": pid, "tag": None, "reliable": False, "name": "ack", "resend": b"",
+                                "rel_seq": rel_sent[0]})
             sim.send(L.build_datagram(0, pid, 0, L.packet_ack_body(ids)), Fate.from_json(st.get("fate")))
 
         def op_csend(st):
@@ -349,7 +408,7 @@ def run_plan(plan: dict) -> RunResult:
                         rec["failed_exc"] = type(exc).__name__
                 fut.add_done_callback(_done)
 
-        ops = {"ssend": op_ssend, "sresend": op_sresend, "sack": op_sack, "csend": op_csend}
+        ops = {"ssend": op_ssend, "sresend": op_sresend, "sack": op_sack, "csend": op_csend, "flood": op_flood}
         for i, st in enumerate(plan["steps"]):
             def _run(i=i, st=st):
                 env.tr("step", i, st["op"])
@@ -385,7 +444,7 @@ def run_plan(plan: dict) -> RunResult:
                     pid_ = e.parsed.body_plain[1]
                     pongs[pid_] = pongs.get(pid_, 0) + 1
             for k_, want in expected_pongs.items():
-                if pongs.get(k_, 0) != want:
+                if pongs.get(k_, 0) != want and k_ not in unjudged_pings:
                     violate("C19/dispatch/ping-replies", ping=k_, replies=pongs.get(k_, 0), want=want)
                     break
         if not stopped:
